@@ -39,7 +39,7 @@ struct VecWorld : World {
         Op op; bool mtm = mode == "threads"; bool c14 = prop == "C14";
         if (mtm) op.k = wpick(r, {{40, V_ADD}, {14, V_GET}, {20, V_POP}, {10, V_REMOVE}, {3, V_CLEAR}, {8, V_TOARRAY}, {5, V_LOCKEDWALK}});
         else op.k = wpick(r, {{34, V_ADD}, {12, V_GET}, {8, V_SET}, {10, V_POP}, {10, V_REMOVE}, {4, V_REVERSE}, {6, V_RESIZE}, {1, V_CLEAR}, {4, V_SIZE}, {5, V_TOARRAY}, {5, V_WALK},
-                              {c14 ? 3 : 0, V_DEBUG}});
+                              {c14 ? 3 : 0, V_DEBUG}, {c14 ? 5 : 0, V_LOCKEDWALK}});
         op.a = (int)r.below(64);
         op.b = (int)r.below(1 << 20);
         op.d = (int)r.below(3) | ((int)r.below(6) << 3);
@@ -69,7 +69,7 @@ struct VecWorld : World {
     void sut_destroy(Ctx &) override { if (q) { InSut s; q->free(q); } q = nullptr; }
     void sut_abandon() override { q = nullptr; }
     void *sut_mutex() override { return q ? q->qmutex : nullptr; }
-    void sut_force_unlock() override { InSut s; q->unlock(q); }
+    void sut_force_unlock() override { InSutLock s; q->unlock(q); }
     void sut_probe(Ctx &) override { InSut s; q->getat(q, 0, false); }
 
     Result take(void *p, bool held, Ctx &x, const char *what) {
@@ -128,7 +128,7 @@ struct VecWorld : World {
         }
         case V_WALK: case V_LOCKEDWALK: {
             bool newmem = op.d & NEWMEM;
-            if (op.k == V_LOCKEDWALK) { InSut s; q->lock(q); }
+            if (op.k == V_LOCKEDWALK) { InSutLock s; q->lock(q); }
             qvector_obj_t o; memset(&o, 0, sizeof o);
             Bytes out; size_t cnt = 0, guard = q->num * 2 + 8; bool failed = false;
             for (;;) {
@@ -137,9 +137,9 @@ struct VecWorld : World {
                 Bytes e((const char *)o.data, (size_t)es);
                 if (newmem) x.hold(o.data, e, "vector.getnext(newmem)");
                 enc(out, e);
-                if (++cnt > guard) { if (op.k == V_LOCKEDWALK) { InSut s; q->unlock(q); } x.fail("walk-mismatch", "result", "walk does not end"); }
+                if (++cnt > guard) { if (op.k == V_LOCKEDWALK) { InSutLock s; q->unlock(q); } x.fail("walk-mismatch", "result", "walk does not end"); }
             }
-            if (op.k == V_LOCKEDWALK) { InSut s; q->unlock(q); }
+            if (op.k == V_LOCKEDWALK) { InSutLock s; q->unlock(q); }
             return failed ? R_fail(out) : R_ok(out + "$");
         }
         case V_DEBUG: {
